@@ -28,6 +28,7 @@ def main(argv: list[str]) -> int:
         return pw.replay(body)
     api.SHARD = unjson(body.get("shard") or {})
     api.MODE = "replay"
+    api.ACTIVE_PROP = body["property"]
     kf = known_mod.load()
     api.KNOWN = {body["property"]: kf.signatures(body["property"])}
     importlib.import_module(body["module"])
